@@ -208,6 +208,18 @@ def run(ctx):
     cases.append(({"type": "record", "name": "R", "fields": [{"name": "f", "type": [{"type": "null"}, "int"], "default": "x"}]},
                   dict(kind="default-wrong-type", path=["fields", 0], field_type=[{"type": "null"}, "int"], default="x")))
 
+    # enum symbols that differ only in letter case are distinct symbols (valid)
+    for syms in (["m", "M"], ["a", "A", "b"], ["Red", "RED", "red"], ["x_y", "X_Y"], ["A1", "a1", "B"]):
+        cases.append(({"type": "enum", "name": "Cs", "symbols": syms}, None))
+        cases.append(({"type": "record", "name": "R", "fields": [{"name": "e", "type": {"type": "enum", "name": "n.Cs", "symbols": syms, "default": syms[1]},
+                                                                  "default": syms[0]}]}, None))
+    # JSON true / false is not a long (nor an int): defaults of long fields in every spelling
+    for dv in (True, False):
+        for ft in ("long", {"type": "long"}, {"type": "long", "logicalType": "timestamp-millis"}, {"type": "long", "logicalType": "time-micros"},
+                   ["long", "null"], ["null", "long"], ["string", {"type": "long"}], [{"type": "long", "logicalType": "timestamp-micros"}, "null"],
+                   "int", {"type": "int"}, ["int", "null"]):
+            cases.append(({"type": "record", "name": "R", "fields": [{"name": "f", "type": ft, "default": dv}]},
+                          dict(kind="default-wrong-type", path=["fields", 0], field_type=ft, default=dv)))
     # wrong-type default on a field whose type is a DIRECT reference to a record that is still open (self / mutual recursion)
     for dv in (5, "x", [], True, None, 1.5):
         for sch, path in [
